@@ -194,10 +194,13 @@ theorem comp_ingest_added (hL : ListenersOK R Iρ) {d : CState ρ} (hI : CInv lo
     rw [List.mem_flatMap]
     exact ⟨(_, i), List.mem_zipIdx_iff_getElem?.mpr hi, List.mem_map_of_mem hcb⟩
   obtain ⟨r1, o, hl, _⟩ := hL d.rest k.now pairs c1 out0.cache out0.notify hI.rest
+  obtain ⟨ss', hss, _⟩ := schedsStep_ok lower possible k.now pairs d.scheds hI.scheds
   unfold ingest
   rw [ho]
   dsimp only
   rw [hcall]
+  dsimp only
+  rw [hss]
   dsimp only
   rw [hl]
   exact ⟨_, _, i, rfl, hout o⟩
